@@ -1,10 +1,21 @@
 """C18 — only correctly signed, currently valid assertions are accepted (DESIGN.md §2 C18)."""
 
 
+# Known classes of accepted assertions whose DECODED signature differs from the signed one while the signature core (what
+# verification reads) is the same. The driver names the class from the bytes (observed.sig_change); any other class, and
+# any accepted change of the core or of the content, stays a violation.
+_SIG_CLASSES = {
+    "unhashed": "sig-unhashed-subpacket",
+    "mpi-bitlength": "sig-mpi-bitlength",
+    "packet-length": "sig-packet-length",
+    "packet-header-form": "sig-packet-header-form",
+}
+
+
 def classify(case):
-    i = case.get("input") or {}
-    if (i.get("mut") or {}).get("kind") == "unhashed":
-        return "sig-unhashed-subpacket"
+    o = case.get("observed") or {}
+    if o.get("accepted"):
+        return _SIG_CLASSES.get(o.get("sig_change"))
     return None
 
 
@@ -25,7 +36,7 @@ SPEC = dict(
           "with that key. Enumerated first: clock (MockTimeNow) and timestamp at since-1, since, since+1, until-1, until, "
           "until+1 for trusted and stored keys and both types, the same with SetEarliestTime, no-until key far in the "
           "future, unknown key, other authority, five constraint sets that admit / do not admit; the SAME account-key at two revisions in two layers (trusted+stored, stacked top+stored, trusted+stacked top via Database.WithStackedBackstore) with the first layer holding the newer revision (expired / constrained / moved to another account / not yet valid / prolonged) or the older one, with both clock modes; structural mutations "
-          "(signature of another genuine assertion, extra unhashed subpacket, duplicated / added / swapped header lines). "
+          "(signature of another genuine assertion; re-framings of the signature packet: extra unhashed subpacket, smaller MPI bit length with the same byte count, overstated packet length, old-format and five-octet packet headers, MPI with a leading zero byte; duplicated / added / swapped header lines). "
           "Then random: single-bit and byte xor, byte insertion, byte deletion at random offsets of the encoded assertion "
           "(headers, separator, base64 signature), 20% random key situation x clock x timestamp without mutation. Observed: "
           "decode ok, Check accepted, Add accepted and found again. Non-trivial = the key is known to the database."),
@@ -33,11 +44,11 @@ SPEC = dict(
     trusted_base=[
         "hand-written model coq/models/AssertCheck.v of asserts/database.go (Check, findAccountKey, DefaultCheckers) and asserts/account_key.go (validity window, constraints), tied by the differential run (harness/overlay/asserts/zz_verif_c18_test.go, in-package test so that asserts.MockTimeNow is available)",
         "RSA / SHA-512 / OpenPGP packet parsing are NOT modelled: `verify` is a Section variable; the correspondence instantiates it with the idealised signature relative to the genuinely signed (key id, content, signature core)",
-        "the driver projects an assertion to (authority, sign key id, timestamp, string headers, content, base64-decoded signature, signature core = packet with the unhashed area emptied)",
+        "the driver projects an assertion to (authority, sign key id, timestamp, string headers, content, base64-decoded signature, signature core = version, type, algorithms, hashed subpackets, hash tag and MPI bytes of the OpenPGP signature packet; sig_change = which framing field differs from the genuine signature)",
     ],
     assumptions=[
         "PARTIAL: signature verification is an oracle; `C18_any_mutation_rejected_partial` holds under the hypothesis that only genuinely produced (key, content, signature core) triples verify; on the real code the conclusion is checked for byte and structural mutations only",
-        "KNOWN FINDING sig-unhashed-subpacket: the decoded signature is not pinned down by verification (unhashed OpenPGP subpackets); `C18_decoded_signature_mutation_refuted`",
+        "KNOWN FINDINGS sig-unhashed-subpacket, sig-mpi-bitlength, sig-packet-length, sig-packet-header-form: the decoded signature is not pinned down by verification (only its core is); `C18_decoded_signature_mutation_refuted`. An accepted assertion whose decoded signature differs in any OTHER way, or whose core or content differs, is a violation",
         "assertion types without authority (account-key-request, serial-request, device-session-request) and CheckCrossConsistency are outside the model; the driver uses types whose cross-consistency check is trivial",
         "account-key constraints are restricted to literal header values; times are whole seconds",
     ],
